@@ -1,14 +1,85 @@
-(* Props/C02.v -- placeholder until the parser proofs land: entry points agree definitionally. *)
-From JsonSyntax Require Import Base.Prelude Base.Value Base.Unicode Model.Parser Model.EntryPoints.
+(* Props/C02.v -- faithful decoding: the parsed value is the document's abstract content.
+   Statements only.  "The document's content" is the denotation the annotated grammar
+   Spec/Grammar.v assigns: items and entries in source order with duplicates kept, strings
+   decoded per RFC 8259 section 7 as UTF-16 element sequences, numbers kept as their
+   spelling, literals mapped to null/true/false. *)
+From JsonSyntax Require Import Base.Prelude Base.Value Base.Unicode Base.Source Model.Parser Model.EntryPoints
+  Model.Object Spec.Grammar Spec.Multimap Proofs.ParserSpec Proofs.ParserCorollaries.
 
-Theorem C02_entry_points_text : forall cs,
-  parse_str cs = parse_str_with strict cs /\
-  parse_str cs = parse_utf8 cs /\
-  parse_str cs = parse_utf8_with strict cs /\
-  parse_str cs = parse_infallible_utf8 cs /\
-  parse_str cs = parse_utf8_infallible_with strict cs /\
-  parse_str cs = parse (chars cs) /\
-  parse_str cs = parse_with strict (chars cs).
-Proof. exact (fun cs => conj eq_refl (conj eq_refl (conj eq_refl (conj eq_refl (conj eq_refl (conj eq_refl eq_refl)))))). Qed.
+(* whatever the parser returns is what the grammar says the text denotes (any options) *)
+Theorem C02_sound : forall o cs v m, Forall (fun c => c <= 0x10FFFF) cs ->
+  parse_str_with o cs = Ok (v, m) -> jtext o (text_items cs) v m.
+Proof. exact ParserCorollaries.C02_sound. Qed.
 
-Print Assumptions C02_entry_points_text.
+(* ... and the denotation is unique: a text denotes at most one value and code map *)
+Theorem C02_denotation_functional : forall o t v m v' m',
+  jtext o t v m -> jtext o t v' m' -> v = v' /\ m = m'.
+Proof. exact ParserCorollaries.C02_denotation_functional. Qed.
+
+(* both directions at once *)
+Theorem C02_parse_str_spec : forall o cs v m,
+  Forall (fun c => c <= 0x10FFFF) cs ->
+  (parse_str_with o cs = Ok (v, m) <-> jtext o (text_items cs) v m).
+Proof. exact parse_str_spec. Qed.
+
+(* the clauses the property names, each for ALL instances *)
+Theorem C02_unicode_escape : forall h3 h2 h1 h0 d3 d2 d1 d0,
+  hexdig h3 = Some d3 -> hexdig h2 = Some d2 -> hexdig h1 = Some d1 -> hexdig h0 = Some d0 ->
+  let u := d3 * 4096 + d2 * 256 + d1 * 16 + d0 in
+  is_surrogate u = false ->
+  parse_str [0x22; 0x5C; 0x75; h3; h2; h1; h0; 0x22] = Ok (VStr [u], [(0, 8, 1)]).
+Proof. exact ParserCorollaries.C02_unicode_escape. Qed.
+
+Theorem C02_surrogate_pair : forall h3 h2 h1 h0 l3 l2 l1 l0 a3 a2 a1 a0 b3 b2 b1 b0,
+  hexdig h3 = Some a3 -> hexdig h2 = Some a2 -> hexdig h1 = Some a1 -> hexdig h0 = Some a0 ->
+  hexdig l3 = Some b3 -> hexdig l2 = Some b2 -> hexdig l1 = Some b1 -> hexdig l0 = Some b0 ->
+  let h := a3 * 4096 + a2 * 256 + a1 * 16 + a0 in
+  let l := b3 * 4096 + b2 * 256 + b1 * 16 + b0 in
+  is_high h = true -> is_low l = true ->
+  parse_str (0x22 :: 0x5C :: 0x75 :: h3 :: h2 :: h1 :: h0 :: 0x5C :: 0x75 :: l3 :: l2 :: l1 :: l0 :: [0x22])
+  = Ok (VStr [0x10000 + (h - 0xD800) * 0x400 + (l - 0xDC00)], [(0, 14, 1)]).
+Proof. exact ParserCorollaries.C02_surrogate_pair. Qed.
+
+Theorem C02_raw_scalar : forall c, is_scalar c = true -> unescaped c = true ->
+  parse_str [0x22; c; 0x22] = Ok (VStr [c], [(0, 2 + utf8_len c, 1)]).
+Proof. exact ParserCorollaries.C02_raw_scalar. Qed.
+
+Theorem C02_two_char_escapes : forall l d, In (l, d) esc_table ->
+  parse_str [0x22; 0x5C; l; 0x22] = Ok (VStr [d], [(0, 4, 1)]).
+Proof. exact ParserCorollaries.C02_two_char_escapes. Qed.
+
+Theorem C02_number_verbatim : forall n, jnum n ->
+  parse_str n = Ok (VNum n, [(0, N.of_nat (length n), 1)]).
+Proof. exact ParserCorollaries.C02_number_verbatim. Qed.
+
+Theorem C02_literals :
+  parse_str (s2l "null") = Ok (VNull, [(0, 4, 1)]) /\
+  parse_str (s2l "true") = Ok (VBool true, [(0, 4, 1)]) /\
+  parse_str (s2l "false") = Ok (VBool false, [(0, 5, 1)]).
+Proof. exact ParserCorollaries.C02_literals. Qed.
+
+(* key lookups on the object built from any entry list (the parser builds objects by push
+   only) are linear scans of that list, in source order *)
+Theorem C02_lookup : forall es k, exists ob,
+  from_iter es = Some ob /\ entries ob = es /\
+  get ob k = Some (m_get es k) /\
+  get_entries ob k = Some (m_get_entries es k) /\
+  indexes_of ob k = Some (m_indexes_of es k).
+Proof. exact ParserCorollaries.C02_lookup. Qed.
+
+Example C02_example :
+  exists m, parse_str (s2l "{""k"":[1.50e+2,""\uD83D\uDE00\n""], ""k"":null}")
+  = Ok (VObj [([0x6B], VArr [VNum (s2l "1.50e+2"); VStr [0x1F600; 0x0A]]); ([0x6B], VNull)], m).
+Proof. vm_compute. eexists; reflexivity. Qed.
+
+Print Assumptions C02_sound.
+Print Assumptions C02_denotation_functional.
+Print Assumptions C02_parse_str_spec.
+Print Assumptions C02_unicode_escape.
+Print Assumptions C02_surrogate_pair.
+Print Assumptions C02_raw_scalar.
+Print Assumptions C02_two_char_escapes.
+Print Assumptions C02_number_verbatim.
+Print Assumptions C02_literals.
+Print Assumptions C02_lookup.
+Print Assumptions C02_example.
